@@ -323,14 +323,16 @@ def rule_kind_filter(prog):
     if ns is None:
         out.missing("completion::new_stmt")
     else:
-        uses = {}
-        for n in hir.nodes(ns["body"], "MethodCall"):
-            if n["m"] in ("map_or_else", "map_or", "map") and n["args"]:
-                d = hir.path_def(n["args"][-1])
-                if d:
-                    uses[(place(n["recv"]) or "").split(".")[-1]] = last(d["p"])
+        # which search functions the statement-start proposals are built from (called, or handed to a combinator as a value);
+        # that search_variables gets the local and search_procedures the global table is settled by their parameter types above
+        uses = set()
+        for n in hir.nodes_deep(prog, ns["body"], 1, crate=c):
+            if n.get("k") in ("Call", "MethodCall"):
+                uses.add(last(hir.callee(n) or ""))
+            if n.get("k") == "Path" and n["res"].get("k") == "Def" and n["res"].get("dk") in ("Fn", "AssocFn"):
+                uses.add(last(n["res"].get("p") or ""))
         out.add("completion::new_stmt", "variables come from the local table, procedures from the global table",
-                uses.get("local_table") == "search_variables" and uses.get("global_table") == "search_procedures", c.loc(ns["sp"]), "%s" % uses)
+                {"search_variables", "search_procedures"} <= uses, c.loc(ns["sp"]), "search functions used: %s" % sorted(u for u in uses if u.startswith("search_")))
     return out
 
 
@@ -1216,7 +1218,12 @@ def rule_position_token(prog):
                          for q in b["params"] for pp in hir.pat_bindings(q))
         if not takes_list:
             continue
-        for clo in hir.nodes(b["body"], "Closure"):
+        scopes = [clo for clo in hir.nodes(b["body"], "Closure")
+                  if any(x["m"] == "contains" for x in hir.nodes(clo["body"], "MethodCall"))]
+        if not scopes and any(x["m"] == "contains" and "Range" in c.tstr(hir.strip(x["recv"])["t"]) for x in hir.nodes(b["body"], "MethodCall")):
+            # the search is written as a loop in the function itself
+            scopes = [{"k": "Closure", "body": b["body"]}]
+        for clo in scopes:
             cont = [x for x in hir.nodes(clo["body"], "MethodCall") if x["m"] == "contains"]
             if not cont:
                 continue
